@@ -282,14 +282,27 @@ def est_cases(spec, obs):
     if len(R) < p + 1 or not np.all(np.isfinite(R)) or R[0].real == 0:
         return out
     cond = cond_of(R, p)
-    fwd = cond < 1e8
+    cheap = spec.get("rxx_kind") in ("supplied-short", "supplied-int-dtype")
+    fwd = cond < 1e8 and (p <= 4 or (cheap and p <= 6))     # exact evaluation of the whole loop is costly for high orders
     tol = tol_for(cond, p)
     kl = "%s/%s/order%d" % ("complex" if spec["complex"] else "real", spec.get("rxx_kind", "computed"), min(p, 9))
     if "err" not in obs["ld"]:
         o = obs["ld"]
         coq = "(KLD %s %s %s %s %s %s)" % (cfl_list(R), nlit(p), blit(fwd), flit(tol),
                                           cfl_list([uhxc(q) for q in o["ak"]]), flit(uhx(o["sigma"])))
-        out.append(Case(coq, {"spec": spec, "which": "ld"}, "LD/" + kl + ("" if fwd else "/illcond")))
+        out.append(Case(coq, {"spec": spec, "which": "ld"}, "LD/" + kl + ("" if fwd else "/residual-only")))
+        if p >= 2 and cond < 1e8:
+            # the last loop pass alone: orders p-2, p-1, p of the implementation on the same input
+            import nitime.algorithms as tsa
+            x, rxx = build_est_inputs(spec)
+            try:
+                a1, _ = tsa.AR_est_LD(x, p - 1, rxx)
+                b2 = R[0].real if p == 2 else tsa.AR_est_LD(x, p - 2, rxx)[1]
+                coq = "(KLDS %s %s %s %s %s %s)" % (cfl_list(R), nlit(p), cfl_list(np.asarray(a1, dtype=complex)), flit(float(np.real(b2))),
+                                                   cfl_list([uhxc(q) for q in o["ak"]]), flit(uhx(o["sigma"])))
+                out.append(Case(coq, {"spec": spec, "which": "ld-step"}, "LDstep/" + kl))
+            except Exception:  # noqa
+                pass
     if "err" not in obs["yw"]:
         o = obs["yw"]
         try:
@@ -298,7 +311,7 @@ def est_cases(spec, obs):
             return out
         coq = "(KYW %s %s %s %s %s %s %s)" % (cfl_list(R), nlit(p), blit(fwd), flit(tol), cfl_list(xs),
                                              cfl_list([uhxc(q) for q in o["ak"]]), flit(uhx(o["sigma"])))
-        out.append(Case(coq, {"spec": spec, "which": "yw"}, "YW/" + kl + ("" if fwd else "/illcond")))
+        out.append(Case(coq, {"spec": spec, "which": "yw"}, "YW/" + kl + ("" if fwd else "/residual-only")))
     return out
 
 
@@ -417,7 +430,7 @@ def exact_acov(a, sigma2, nlags):
 def gen_est_specs(ctx):
     rng = ctx.rng
     specs = []
-    n_sig = ctx.scale(70, 600)
+    n_sig = ctx.scale(60, 600)
     for i in range(n_sig):
         cplx = rng.random() < 0.55
         N = rng.choice([16, 17, 24, 31, 32, 50, 64, 100, 128] + ([255, 256, 512] if ctx.quick else [255, 256, 1000, 1024, 2048, 4096]))
@@ -447,7 +460,7 @@ def gen_est_specs(ctx):
             s = dict(base, rxx=[hxc(z) for z in rx[:p + 1]], rxx_dtype="complex" if cplx else "float", rxx_kind="supplied-autocov", pd=True)
         specs.append(s)
     # exact autocovariance of known stable processes (exact recovery)
-    for i in range(ctx.scale(40, 300)):
+    for i in range(ctx.scale(30, 300)):
         cplx = rng.random() < 0.5
         p = rng.randint(1, 6 if ctx.quick else 10)
         a = stable_coefs(rng, p, cplx, rng.choice([0.5, 0.7, 0.85]))
@@ -477,11 +490,11 @@ def gen_est_specs(ctx):
 def gen_psd_specs(ctx):
     rng = ctx.rng
     out = []
-    for i in range(ctx.scale(90, 600)):
+    for i in range(ctx.scale(60, 500)):
         cplx = rng.random() < 0.5
-        p = rng.randint(1, 8)
+        p = rng.randint(1, 6 if ctx.quick else 8)
         a = stable_coefs(rng, p, cplx, rng.choice([0.5, 0.8, 0.95]))
-        nf = rng.choice([1, 2, 3, 4, 5, 6, 7, 8, 9, 12, 13, 16, 17] + ([] if ctx.quick else [31, 32, 33, 64]))
+        nf = rng.choice([1, 2, 3, 4, 5, 6, 7, 8, 9, 12, 13] + ([] if ctx.quick else [16, 17, 31, 32, 33, 64]))
         out.append({"kind": "psd", "complex": cplx, "ak": [hxc(z) for z in a], "sigma": hx(rng.choice([0.25, 1.0, 2.0, 0.731, 5.3])),
                     "n_freqs": nf, "sides": rng.choice(["onesided", "twosided"])})
     return out
@@ -490,7 +503,7 @@ def gen_psd_specs(ctx):
 def gen_gen_specs(ctx):
     rng = ctx.rng
     out = []
-    for i in range(ctx.scale(70, 500)):
+    for i in range(ctx.scale(50, 400)):
         cplx = rng.random() < 0.4
         p = rng.randint(1, 5)
         a = stable_coefs(rng, p, cplx, rng.choice([0.5, 0.8, 0.9]))
